@@ -977,6 +977,15 @@ pub fn stream_model(out: &mut Out, seed: u64, thorough: bool) {
     for i in 0..nmis {
         let (names, mut calls, _) = random_session(&mut rng, false);
         let p = names.len();
+        // one session in eight (cycled by the case index): an EMPTY independent variable, which the
+        // builder accepts; every non-empty output is then a wrong length (round 11)
+        if i % 8 == 3 {
+            for c in calls.iter_mut() {
+                if let MCall::X(n) = c {
+                    *n = 0;
+                }
+            }
+        }
         let n = calls
             .iter()
             .find_map(|c| if let MCall::X(n) = c { Some(*n) } else { None })
@@ -996,7 +1005,7 @@ pub fn stream_model(out: &mut Out, seed: u64, thorough: bool) {
         let nwrong = *rng.pick(&[0usize, 1, 1, 2]);
         for _ in 0..nwrong {
             let j = rng.below(calls.len());
-            let wl = *rng.pick(&[0usize, n.saturating_sub(1), n + 1, 2 * n]);
+            let wl = if n == 0 { rng.range(1, 3) } else { *rng.pick(&[0usize, n.saturating_sub(1), n + 1, 2 * n]) };
             match &mut calls[j] {
                 MCall::Function(_, pr) | MCall::Deriv(_, pr) | MCall::Invariant(pr) => {
                     if wl != n && pr.len.is_none() {
